@@ -29,7 +29,7 @@
      - a subscripted EUPS_PATH reference (replaced from the environment of the moment the table is loaded);
      - a product name with a character other than letters, digits, underscore, minus (the pattern for
        NAME_DIR is built from the name without escaping), or a backslash in the name, version, flavor,
-       directory or stack root (re.sub would read it as a template escape);
+       directory or stack root (re.sub would read it as a template escape).
    Eups.setup reads the table for setupFlavor: when setting up, the flavor the product was found under (a
    product declared under the fall-back flavor generic is read with flavor generic, whatever the running
    flavor); when unsetting up, the flavor that SETUP_NAME records behind -f, which is the same one.  This is
